@@ -360,6 +360,31 @@ theorem fp_idempotent (f : HelloFields) (pol : PadPolicy) (xs : List Ext) (bs₁
   rw [e1, e1, List.map_map, List.map_map, ← hstf]
   exact hcoreL
 
+/-- **a GREASE key share keeps its key_exchange bytes, whatever their length** (RFC 8701 does not fix
+it; Chrome sends one byte): `KeyShareExtension.Write` on the body `Read` produced keeps every GREASE
+entry's data at its index (group → placeholder) and drops the data of exactly the other entries (which
+`ApplyPreset` regenerates). `ApplyPreset` skips GREASE entries, so these bytes are what the regenerated
+hello carries — `shape` keeps them (`shapeExt` 51), hence `fp_roundtrip` and `fp_len_eq` depend on it. -/
+theorem fp_grease_share_kept (ss : List (Nat × Bytes)) (hwf : WF (keyShare ss)) (realPSK : Bool) :
+    ∃ ss', Ext.write realPSK 51 (body (keyShare ss)) = .ok (keyShare ss') ∧ ss'.length = ss.length ∧
+      (∀ (i g : Nat) (d : Bytes), ss[i]? = some (g, d) → isGreaseU16 g = true → ss'[i]? = some (greasePlaceholder, d)) ∧
+      (∀ (i g : Nat) (d : Bytes), ss[i]? = some (g, d) → isGreaseU16 g = false → ss'[i]? = some (g, [])) := by
+  have h := C08.write_read_partial (keyShare ss) hwf rfl rfl (by intro k a c enc p he; cases he)
+  have hflag : Ext.write realPSK 51 (body (keyShare ss)) = Ext.write (C08.realPskOf (keyShare ss)) 51 (body (keyShare ss)) := by
+    simp [Ext.write]
+  rw [norm_keyShare] at h
+  refine ⟨_, by rw [hflag]; exact h, by simp, ?_, ?_⟩
+  · intro i g d hi hg
+    simp [List.getElem?_map, hi, unGrease_of_grease g hg]
+  · intro i g d hi hg
+    have hne : unGrease g ≠ greasePlaceholder := by
+      rw [unGrease_of_not g hg]; intro e; rw [e] at hg; exact absurd hg (by decide)
+    simp [List.getElem?_map, hi, hne]
+
+/-- a GREASE share of 32 bytes in first position and of 2 bytes in last position: both kept. -/
+example : Ext.write false 51 (body (keyShare [(0x1a1a, List.replicate 32 7), (29, List.replicate 32 1), (0x2a2a, [8, 9])])) =
+    .ok (keyShare [(0x0a0a, List.replicate 32 7), (29, []), (0x0a0a, [8, 9])]) := by decide +kernel
+
 /-! ## Non-vacuity, and why the guard is needed -/
 
 /-- a Chrome-like capture: GREASE, SNI, supported_groups with GREASE, ALPN, key_share (GREASE + X25519),
